@@ -2,3 +2,5 @@ pub mod c01;
 pub mod c02;
 pub mod c03;
 pub mod c04;
+pub mod c07;
+pub mod c13;
